@@ -323,7 +323,7 @@ PROPS = {
         "theorems": [
             "BPT.Props.C07.step_refines", "BPT.Props.C07.run_refines", "BPT.Props.C07.refines_dict",
             "BPT.Props.C07.capacity_guard", "BPT.Props.C07.get_returns_stored", "BPT.Props.C07.get_default_iff_absent",
-            "BPT.Props.C07.popitem_removes_smallest", "BPT.Props.C07.abs_strictly_ascending", "BPT.Props.C07.copy_same_contents",
+            "BPT.Props.C07.popitem_removes_smallest", "BPT.Props.C07.deleted_key_absent", "BPT.Props.C07.len_after_assign", "BPT.Props.C07.len_after_delete", "BPT.Props.C07.abs_strictly_ascending", "BPT.Props.C07.copy_same_contents",
             "BPT.Props.C07.Legacy.get_none_returns_default",
             "BPT.Py.insertRec_spec", "BPT.Py.deleteRec_spec", "BPT.Py.handleUnderflow_spec",
             "BPT.Py.setitem_spec", "BPT.Py.delitem_spec", "BPT.Py.findRec_spec", "BPT.Py.len_spec", "BPT.Py.items_spec",
